@@ -17,4 +17,23 @@ for virt, real in repl.items():
 PY
 # keep the generated files out of `git status` / `git diff`
 ( cd "$d" && git ls-files --others --exclude-standard api/proto | sed 's#^#/#' >> "$(git rev-parse --git-path info/exclude)" ) || true
+
+# mockgen outputs (git-ignored upstream) so that upstream test packages and demo tests compile; best effort.
+# Generated once into /verif/.build/mocks and copied afterwards.
+if [ -z "$NO_MOCKS" ]; then
+  cache=/verif/.build/mocks
+  if [ ! -f "$cache/.done" ]; then
+    mkdir -p "$cache"
+    ( cd "$d" && export GOFLAGS=-mod=mod GOPROXY=off && unset GOTOOLCHAIN GOSUMDB && \
+      grep -rn "go:generate mockgen" --include=*.go . | while IFS=: read -r file line rest; do
+        dir=$(dirname "$file"); args=$(echo "$rest" | sed 's#^//go:generate mockgen ##')
+        ( cd "$dir" && go run go.uber.org/mock/mockgen $args >/dev/null 2>&1 ) || true
+      done
+      git ls-files --others --ignored --exclude-standard | grep '_mock\.go$' | while read -r f; do
+        mkdir -p "$cache/$(dirname "$f")"; cp "$f" "$cache/$f"; done ) || true
+    touch "$cache/.done"
+  else
+    ( cd "$cache" && find . -name '*_mock.go' | while read -r f; do mkdir -p "$d/$(dirname "$f")"; cp "$f" "$d/$f"; done )
+  fi
+fi
 echo "$d"
